@@ -1,4 +1,949 @@
 import TrustVerif.Model.C09
 
+/-!
+Helper lemmas for C09: ordered maps, storage frame rules, instance creation, the five loops of
+`restart`, retain snapshots.
+-/
 namespace TrustVerif.C09
+
+/-! ### association lists -/
+
+theorem aget_aset_same {α : Type} (l : List (Nat × α)) (k : Nat) (v : α) :
+    aget (aset l k v) k = some v := by
+  induction l with
+  | nil => simp [aset, aget]
+  | cons p rest ih =>
+    obtain ⟨k', v'⟩ := p
+    by_cases h : k' = k
+    · simp [aset, aget, h]
+    · simp [aset, aget, h, ih]
+
+theorem aget_aset_ne {α : Type} (l : List (Nat × α)) (k k' : Nat) (v : α) (h : k ≠ k') :
+    aget (aset l k v) k' = aget l k' := by
+  induction l with
+  | nil => simp [aset, aget, h]
+  | cons p rest ih =>
+    obtain ⟨k0, v0⟩ := p
+    by_cases h0 : k0 = k
+    · subst h0
+      simp [aset, aget, h]
+    · by_cases h1 : k0 = k'
+      · subst h1
+        simp [aset, aget, h0]
+      · simp [aset, aget, h0, h1, ih]
+
+theorem aget_aset {α : Type} (l : List (Nat × α)) (k k' : Nat) (v : α) :
+    aget (aset l k v) k' = if k = k' then some v else aget l k' := by
+  by_cases h : k = k'
+  · subst h; simp [aget_aset_same]
+  · simp [h, aget_aset_ne _ _ _ _ h]
+
+/-- Keys of an ordered map. -/
+def keys {α : Type} (l : List (Nat × α)) : List Nat := l.map (·.1)
+
+theorem aget_none_of_not_mem {α : Type} (l : List (Nat × α)) (k : Nat) (h : k ∉ keys l) :
+    aget l k = none := by
+  induction l with
+  | nil => rfl
+  | cons p rest ih =>
+    obtain ⟨k0, v0⟩ := p
+    simp [keys] at h
+    have h1 : k0 ≠ k := fun e => h.1 e.symm
+    simp [aget, h1]
+    exact ih (by simpa [keys] using h.2)
+
+theorem keys_aset {α : Type} (l : List (Nat × α)) (k : Nat) (v : α) :
+    keys (aset l k v) = if k ∈ keys l then keys l else keys l ++ [k] := by
+  induction l with
+  | nil => simp [aset, keys]
+  | cons p rest ih =>
+    obtain ⟨k0, v0⟩ := p
+    by_cases h0 : k0 = k
+    · subst h0; simp [aset, keys]
+    · have h0' : ¬ k = k0 := fun e => h0 e.symm
+      simp only [keys] at ih
+      by_cases hm : k ∈ List.map (fun x => x.fst) rest
+      · simp [aset, keys, h0, h0', ih, hm]
+      · simp [aset, keys, h0, h0', ih, hm]
+
+theorem keys_aset_nodup {α : Type} (l : List (Nat × α)) (k : Nat) (v : α) (h : (keys l).Nodup) :
+    (keys (aset l k v)).Nodup := by
+  rw [keys_aset]
+  split
+  · exact h
+  · rename_i hk
+    exact List.nodup_append.2 ⟨h, by simp, by
+      intro a ha b hb
+      simp at hb
+      subst hb
+      intro e
+      subst e
+      exact hk ha⟩
+
+/-! ### storage: globals and instances do not interfere -/
+
+namespace Storage
+
+@[simp] theorem getGlobal_setGlobal_same (s : Storage) (n : Nat) (v : Val) :
+    (s.setGlobal n v).getGlobal n = some v := by
+  simp [getGlobal, setGlobal, aget_aset_same]
+
+theorem getGlobal_setGlobal_ne (s : Storage) (n n' : Nat) (v : Val) (h : n ≠ n') :
+    (s.setGlobal n v).getGlobal n' = s.getGlobal n' := by
+  simp [getGlobal, setGlobal, aget_aset_ne _ _ _ _ h]
+
+theorem getGlobal_setGlobal (s : Storage) (n n' : Nat) (v : Val) :
+    (s.setGlobal n v).getGlobal n' = if n = n' then some v else s.getGlobal n' := by
+  simp [getGlobal, setGlobal, aget_aset]
+
+@[simp] theorem getInstance_setGlobal (s : Storage) (n : Nat) (v : Val) (id : Nat) :
+    (s.setGlobal n v).getInstance id = s.getInstance id := rfl
+
+@[simp] theorem getInstVar_setGlobal (s : Storage) (n : Nat) (v : Val) (id m : Nat) :
+    (s.setGlobal n v).getInstVar id m = s.getInstVar id m := rfl
+
+@[simp] theorem nextId_setGlobal (s : Storage) (n : Nat) (v : Val) :
+    (s.setGlobal n v).nextId = s.nextId := rfl
+
+@[simp] theorem frames_setGlobal (s : Storage) (n : Nat) (v : Val) :
+    (s.setGlobal n v).frames = s.frames := rfl
+
+@[simp] theorem getGlobal_setInstVar (s : Storage) (id m : Nat) (v : Val) (n : Nat) :
+    (s.setInstVar id m v).getGlobal n = s.getGlobal n := rfl
+
+@[simp] theorem globals_setInstVar (s : Storage) (id m : Nat) (v : Val) :
+    (s.setInstVar id m v).globals = s.globals := rfl
+
+@[simp] theorem nextId_setInstVar (s : Storage) (id m : Nat) (v : Val) :
+    (s.setInstVar id m v).nextId = s.nextId := rfl
+
+@[simp] theorem frames_setInstVar (s : Storage) (id m : Nat) (v : Val) :
+    (s.setInstVar id m v).frames = s.frames := rfl
+
+theorem aget_updInstances (l : List (Nat × InstData)) (id id' : Nat) (f : InstData → InstData) :
+    aget (updInstances l id f) id' = if id' = id then (aget l id').map f else aget l id' := by
+  induction l with
+  | nil => simp [updInstances, aget]
+  | cons p rest ih =>
+    obtain ⟨k, d⟩ := p
+    simp only [updInstances, List.map_cons] at ih ⊢
+    by_cases hk : k = id
+    · subst hk
+      by_cases h2 : k = id'
+      · subst h2; simp [aget]
+      · have h2' : ¬ id' = k := fun e => h2 e.symm
+        simp [aget, h2, h2'] at ih ⊢
+        exact ih
+    · by_cases h2 : k = id'
+      · subst h2
+        simp [aget, hk]
+      · simp [aget, hk, h2]
+        exact ih
+
+theorem getInstance_setInstVar (s : Storage) (id m : Nat) (v : Val) (id' : Nat) :
+    (s.setInstVar id m v).getInstance id' =
+      if id' = id then (s.getInstance id').map (fun d => { d with vars := aset d.vars m v })
+      else s.getInstance id' := by
+  simp [getInstance, setInstVar, aget_updInstances]
+
+theorem getInstVar_setInstVar (s : Storage) (id m : Nat) (v : Val) (id' m' : Nat) :
+    (s.setInstVar id m v).getInstVar id' m' =
+      if id' = id ∧ m = m' ∧ (s.getInstance id).isSome then some v else s.getInstVar id' m' := by
+  unfold getInstVar
+  rw [getInstance_setInstVar]
+  by_cases h : id' = id
+  · subst h
+    cases hg : s.getInstance id' with
+    | none => simp
+    | some d => simp [aget_aset]
+  · simp [h]
+
+theorem getInstVar_setInstVar_other (s : Storage) (id m : Nat) (v : Val) (id' m' : Nat)
+    (h : id' ≠ id ∨ m ≠ m') : (s.setInstVar id m v).getInstVar id' m' = s.getInstVar id' m' := by
+  rw [getInstVar_setInstVar]
+  rcases h with h | h <;> simp [h]
+
+theorem getInstVar_setInstVar_same (s : Storage) (id m : Nat) (v : Val)
+    (h : (s.getInstance id).isSome) : (s.setInstVar id m v).getInstVar id m = some v := by
+  rw [getInstVar_setInstVar]; simp [h]
+
+theorem isSome_getInstance_setInstVar (s : Storage) (id m : Nat) (v : Val) (id' : Nat) :
+    ((s.setInstVar id m v).getInstance id').isSome = (s.getInstance id').isSome := by
+  rw [getInstance_setInstVar]
+  split <;> simp
+
+@[simp] theorem getGlobal_createInstance (s : Storage) (ty n : Nat) :
+    (s.createInstance ty).1.getGlobal n = s.getGlobal n := rfl
+
+@[simp] theorem globals_createInstance (s : Storage) (ty : Nat) :
+    (s.createInstance ty).1.globals = s.globals := rfl
+
+@[simp] theorem nextId_createInstance (s : Storage) (ty : Nat) :
+    (s.createInstance ty).1.nextId = s.nextId + 1 := rfl
+
+@[simp] theorem id_createInstance (s : Storage) (ty : Nat) : (s.createInstance ty).2 = s.nextId := rfl
+
+@[simp] theorem frames_createInstance (s : Storage) (ty : Nat) :
+    (s.createInstance ty).1.frames = s.frames := rfl
+
+theorem getInstance_createInstance (s : Storage) (ty id : Nat) :
+    (s.createInstance ty).1.getInstance id =
+      if s.nextId = id then some { tyName := ty, vars := [] } else s.getInstance id := by
+  simp [createInstance, getInstance, aget]
+
+end Storage
+
+open Storage
+
+/-! ### frame relation: `s'` extends `s` by instances with ids `≥ s.nextId` only -/
+
+/-- Everything below `s.nextId` and all globals/frames are untouched. -/
+structure Ext (s s' : Storage) : Prop where
+  globals : s'.globals = s.globals
+  frames : s'.frames = s.frames
+  next : s.nextId ≤ s'.nextId
+  old : ∀ id, id < s.nextId → s'.getInstance id = s.getInstance id
+
+theorem Ext.refl (s : Storage) : Ext s s := ⟨rfl, rfl, Nat.le_refl _, fun _ _ => rfl⟩
+
+theorem Ext.trans {a b c : Storage} (h1 : Ext a b) (h2 : Ext b c) : Ext a c :=
+  ⟨h2.globals.trans h1.globals, h2.frames.trans h1.frames, Nat.le_trans h1.next h2.next,
+   fun id h => (h2.old id (Nat.lt_of_lt_of_le h h1.next)).trans (h1.old id h)⟩
+
+theorem Ext.getGlobal {s s' : Storage} (h : Ext s s') (n : Nat) : s'.getGlobal n = s.getGlobal n := by
+  simp [Storage.getGlobal, h.globals]
+
+theorem Ext.getInstVar {s s' : Storage} (h : Ext s s') (id m : Nat) (hid : id < s.nextId) :
+    s'.getInstVar id m = s.getInstVar id m := by
+  simp [Storage.getInstVar, h.old id hid]
+
+theorem Ext.createInstance (s : Storage) (ty : Nat) : Ext s (s.createInstance ty).1 :=
+  ⟨rfl, rfl, by simp, fun id h => by
+    rw [getInstance_createInstance]
+    have : s.nextId ≠ id := by omega
+    simp [this]⟩
+
+/-- Writing a variable of an instance that is not below the old bound. -/
+theorem Ext.setInstVar {s s' : Storage} (h : Ext s s') (id m : Nat) (v : Val) (hid : s.nextId ≤ id) :
+    Ext s (s'.setInstVar id m v) :=
+  ⟨by simp [h.globals], by simp [h.frames], by simp [h.next], fun j hj => by
+    rw [getInstance_setInstVar]
+    have : j ≠ id := by omega
+    simp [this, h.old j hj]⟩
+
+/-- Changing a global is not an extension in the `globals` field; separate rule for instances. -/
+theorem getInstance_lt_of_ext_setGlobal {s s' : Storage} (h : Ext s s') (n : Nat) (v : Val) (id : Nat)
+    (hid : id < s.nextId) : (s'.setGlobal n v).getInstance id = s.getInstance id := by
+  simp [h.old id hid]
+
+/-! ### FB instance creation -/
+
+/-- The member map `setMembers` builds. -/
+def membersMap : List (Nat × Val) → List (Nat × Val) → List (Nat × Val)
+  | acc, [] => acc
+  | acc, (n, v) :: rest => membersMap (aset acc n v) rest
+
+theorem getInstance_setMembers (s : Storage) (id : Nat) (ms : List (Nat × Val)) (id' : Nat) :
+    (setMembers s id ms).getInstance id' =
+      if id' = id then (s.getInstance id').map (fun d => { d with vars := membersMap d.vars ms })
+      else s.getInstance id' := by
+  induction ms generalizing s with
+  | nil =>
+    simp only [setMembers, membersMap]
+    split
+    · cases s.getInstance id' <;> simp
+    · rfl
+  | cons p rest ih =>
+    obtain ⟨n, v⟩ := p
+    simp only [setMembers, membersMap]
+    rw [ih, getInstance_setInstVar]
+    by_cases h : id' = id
+    · simp only [h, if_true]
+      cases s.getInstance id <;> simp
+    · simp [h]
+
+theorem setMembers_globals (s : Storage) (id : Nat) (ms : List (Nat × Val)) :
+    (setMembers s id ms).globals = s.globals ∧ (setMembers s id ms).nextId = s.nextId ∧
+    (setMembers s id ms).frames = s.frames := by
+  induction ms generalizing s with
+  | nil => simp [setMembers]
+  | cons p rest ih =>
+    obtain ⟨n, v⟩ := p
+    simp only [setMembers]
+    have := ih (s.setInstVar id n v)
+    simpa using this
+
+/-- Characterisation of `create_fb_instance`. -/
+theorem createFbInstance_spec (fbs : List FbDef) (s s' : Storage) (ty id : Nat)
+    (h : createFbInstance fbs s ty = .ok (s', id)) :
+    ∃ fb, findFb fbs ty = some fb ∧ id = s.nextId ∧ s'.nextId = s.nextId + 1 ∧ Ext s s' ∧
+      s'.getInstance id = some { tyName := fb.name, vars := membersMap [] fb.members } := by
+  unfold createFbInstance at h
+  cases hf : findFb fbs ty with
+  | none => simp [hf] at h
+  | some fb =>
+    simp only [hf] at h
+    injection h with h
+    injection h with h1 h2
+    subst h2
+    simp only [id_createInstance] at h1
+    have hg := setMembers_globals (s.createInstance fb.name).1 s.nextId fb.members
+    refine ⟨fb, rfl, rfl, ?_, ?_, ?_⟩
+    · rw [← h1, hg.2.1]; simp
+    · rw [← h1]
+      refine ⟨by rw [hg.1]; simp, by rw [hg.2.2]; simp, by rw [hg.2.1]; simp, ?_⟩
+      intro j hj
+      rw [getInstance_setMembers]
+      have : j ≠ s.nextId := by omega
+      simp only [this, if_false]
+      exact (Ext.createInstance s fb.name).old j hj
+    · rw [← h1, getInstance_setMembers]
+      simp [getInstance_createInstance]
+
+/-! ### program instance creation -/
+
+/-- What `initVars` preserves. -/
+theorem initVars_preserve (fbs : List FbDef) (id : Nat) (vars : List VarDef) :
+    ∀ (s s' : Storage), initVars fbs s id vars = .ok s' → id < s.nextId →
+      s'.globals = s.globals ∧ s'.frames = s.frames ∧ s.nextId ≤ s'.nextId ∧
+      (∀ j, j < s.nextId → j ≠ id → s'.getInstance j = s.getInstance j) ∧
+      (∀ m, m ∉ vars.map (·.name) → s'.getInstVar id m = s.getInstVar id m) ∧
+      ((s.getInstance id).isSome → (s'.getInstance id).isSome) := by
+  induction vars with
+  | nil =>
+    intro s s' h _
+    simp only [initVars] at h
+    injection h with h
+    subst h
+    exact ⟨rfl, rfl, Nat.le_refl _, fun _ _ _ => rfl, fun _ _ => rfl, fun hs => hs⟩
+  | cons d rest ih =>
+    intro s s' h hid
+    simp only [initVars] at h
+    cases hd : d.init with
+    | plain v =>
+      simp only [hd] at h
+      obtain ⟨h1, h2, h3, h4, h5, h6⟩ := ih _ _ h (by simpa using hid)
+      refine ⟨by simp [h1], by simp [h2], by simpa using h3, ?_, ?_, ?_⟩
+      · intro j hj hne
+        rw [h4 j (by simpa using hj) hne, getInstance_setInstVar]
+        simp [hne]
+      · intro m hm
+        simp only [List.map_cons, List.mem_cons, not_or] at hm
+        rw [h5 m hm.2, getInstVar_setInstVar_other]
+        exact Or.inr (fun e => hm.1 e.symm)
+      · intro hs
+        exact h6 (by rw [isSome_getInstance_setInstVar]; exact hs)
+    | ext =>
+      simp only [hd] at h
+      obtain ⟨h1, h2, h3, h4, h5, h6⟩ := ih _ _ h hid
+      refine ⟨h1, h2, h3, h4, ?_, h6⟩
+      intro m hm
+      simp only [List.map_cons, List.mem_cons, not_or] at hm
+      exact h5 m hm.2
+    | fb ty =>
+      simp only [hd] at h
+      cases hc : createFbInstance fbs s ty with
+      | error e => simp [hc] at h
+      | ok r =>
+        obtain ⟨s1, nid⟩ := r
+        simp only [hc] at h
+        obtain ⟨fb, _, hnid, hnext, hext, _⟩ := createFbInstance_spec fbs s s1 ty nid hc
+        obtain ⟨h1, h2, h3, h4, h5, h6⟩ := ih _ _ h (by simp; omega)
+        refine ⟨by simp [h1, hext.globals], by simp [h2, hext.frames], by simp at h3; omega, ?_, ?_, ?_⟩
+        · intro j hj hne
+          rw [h4 j (by simp; omega) hne, getInstance_setInstVar]
+          simp [hne, hext.old j hj]
+        · intro m hm
+          simp only [List.map_cons, List.mem_cons, not_or] at hm
+          rw [h5 m hm.2, getInstVar_setInstVar_other _ _ _ _ _ _ (Or.inr (fun e => hm.1 e.symm))]
+          exact hext.getInstVar id m hid
+        · intro hs
+          apply h6
+          rw [isSome_getInstance_setInstVar, hext.old id hid]
+          exact hs
+
+/-- What `initVars` establishes for every declared variable (distinct names). -/
+theorem initVars_content (fbs : List FbDef) (id : Nat) (vars : List VarDef) :
+    ∀ (s s' : Storage), initVars fbs s id vars = .ok s' → id < s.nextId →
+      (s.getInstance id).isSome → (vars.map (·.name)).Nodup →
+      ∀ d, d ∈ vars →
+        match d.init with
+        | .plain v => s'.getInstVar id d.name = some v
+        | .ext => True
+        | .fb ty => ∃ j fb, s'.getInstVar id d.name = some (.inst j) ∧ s.nextId ≤ j ∧ j < s'.nextId ∧
+            j ≠ id ∧ findFb fbs ty = some fb ∧
+            s'.getInstance j = some { tyName := fb.name, vars := membersMap [] fb.members } := by
+  induction vars with
+  | nil => intro s s' _ _ _ _ d hd; cases hd
+  | cons d0 rest ih =>
+    intro s s' h hid hsome hnd d hd
+    simp only [List.map_cons, List.nodup_cons] at hnd
+    simp only [initVars] at h
+    cases hd0 : d0.init with
+    | plain v =>
+      simp only [hd0] at h
+      have hpres := initVars_preserve fbs id rest _ _ h (by simpa using hid)
+      rcases List.mem_cons.1 hd with rfl | hmem
+      · simp only [hd0]
+        rw [hpres.2.2.2.2.1 _ hnd.1]
+        exact getInstVar_setInstVar_same _ _ _ _ hsome
+      · have := ih _ _ h (by simpa using hid) (by rw [isSome_getInstance_setInstVar]; exact hsome) hnd.2 d hmem
+        simpa using this
+    | ext =>
+      simp only [hd0] at h
+      rcases List.mem_cons.1 hd with rfl | hmem
+      · simp [hd0]
+      · exact ih _ _ h hid hsome hnd.2 d hmem
+    | fb ty =>
+      simp only [hd0] at h
+      cases hc : createFbInstance fbs s ty with
+      | error e => simp [hc] at h
+      | ok r =>
+        obtain ⟨s1, nid⟩ := r
+        simp only [hc] at h
+        obtain ⟨fb, hfind, hnid, hnext, hext, hinst⟩ := createFbInstance_spec fbs s s1 ty nid hc
+        have hid1 : id < (s1.setInstVar id d0.name (.inst nid)).nextId := by simp; omega
+        have hsome1 : ((s1.setInstVar id d0.name (.inst nid)).getInstance id).isSome := by
+          rw [isSome_getInstance_setInstVar, hext.old id hid]; exact hsome
+        have hpres := initVars_preserve fbs id rest _ _ h hid1
+        rcases List.mem_cons.1 hd with rfl | hmem
+        · simp only [hd0]
+          refine ⟨nid, fb, ?_, by omega, by have := hpres.2.2.1; simp at this; omega, by omega, hfind, ?_⟩
+          · rw [hpres.2.2.2.2.1 _ hnd.1]
+            apply getInstVar_setInstVar_same
+            rw [hext.old id hid]; exact hsome
+          · rw [hpres.2.2.2.1 nid (by simp; omega) (by omega), getInstance_setInstVar]
+            have : nid ≠ id := by omega
+            simp [this, hinst]
+        · have := ih _ _ h hid1 hsome1 hnd.2 d hmem
+          cases hdi : d.init with
+          | plain v => simpa [hdi] using this
+          | ext => trivial
+          | fb ty' =>
+            simp only [hdi] at this ⊢
+            obtain ⟨j, fb', a1, a2, a3, a4, a5, a6⟩ := this
+            exact ⟨j, fb', a1, by simp at a2; omega, a3, a4, a5, a6⟩
+
+/-- Characterisation of `create_program_instance`. -/
+theorem createProgramInstance_spec (fbs : List FbDef) (s s' : Storage) (p : ProgDef) (id : Nat)
+    (h : createProgramInstance fbs s p = .ok (s', id)) (hnd : (p.vars.map (·.name)).Nodup) :
+    id = s.nextId ∧ s.nextId < s'.nextId ∧ Ext s s' ∧ (s'.getInstance id).isSome ∧
+    ∀ d, d ∈ p.vars →
+      match d.init with
+      | .plain v => s'.getInstVar id d.name = some v
+      | .ext => True
+      | .fb ty => ∃ j fb, s'.getInstVar id d.name = some (.inst j) ∧ s.nextId < j ∧ j < s'.nextId ∧
+          findFb fbs ty = some fb ∧
+          s'.getInstance j = some { tyName := fb.name, vars := membersMap [] fb.members } := by
+  unfold createProgramInstance at h
+  simp only [id_createInstance] at h
+  cases hi : initVars fbs (s.createInstance p.name).1 s.nextId p.vars with
+  | error e => rw [hi] at h; cases h
+  | ok s2 =>
+    rw [hi] at h
+    dsimp only at h
+    injection h with h
+    injection h with h1 h2
+    subst h1
+    subst h2
+    have hid : s.nextId < (s.createInstance p.name).1.nextId := by simp
+    have hsome : ((s.createInstance p.name).1.getInstance s.nextId).isSome := by
+      rw [getInstance_createInstance]; simp
+    have hpres := initVars_preserve fbs s.nextId p.vars _ _ hi hid
+    have hcont := initVars_content fbs s.nextId p.vars _ _ hi hid hsome hnd
+    refine ⟨rfl, by have := hpres.2.2.1; simp at this; omega, ?_, hpres.2.2.2.2.2 hsome, ?_⟩
+    · refine ⟨by rw [hpres.1]; simp, by rw [hpres.2.1]; simp, by have := hpres.2.2.1; simp at this; omega, ?_⟩
+      intro j hj
+      rw [hpres.2.2.2.1 j (by simp; omega) (by omega)]
+      exact (Ext.createInstance s p.name).old j hj
+    · intro d hd
+      have := hcont d hd
+      cases hdi : d.init with
+      | plain v => simpa [hdi] using this
+      | ext => trivial
+      | fb ty =>
+        simp only [hdi] at this ⊢
+        obtain ⟨j, fb, a1, a2, a3, a4, a5, a6⟩ := this
+        exact ⟨j, fb, a1, by simp at a2; omega, a3, a5, a6⟩
+
+/-! ### the loops of `restart` -/
+
+/-- Instances-only frame (globals may change): ids below `s.nextId` are untouched. -/
+structure IExt (s s' : Storage) : Prop where
+  frames : s'.frames = s.frames
+  next : s.nextId ≤ s'.nextId
+  old : ∀ id, id < s.nextId → s'.getInstance id = s.getInstance id
+
+theorem IExt.refl (s : Storage) : IExt s s := ⟨rfl, Nat.le_refl _, fun _ _ => rfl⟩
+
+theorem IExt.trans {a b c : Storage} (h1 : IExt a b) (h2 : IExt b c) : IExt a c :=
+  ⟨h2.frames.trans h1.frames, Nat.le_trans h1.next h2.next,
+   fun id h => (h2.old id (Nat.lt_of_lt_of_le h h1.next)).trans (h1.old id h)⟩
+
+theorem Ext.toIExt {s s' : Storage} (h : Ext s s') : IExt s s' := ⟨h.frames, h.next, h.old⟩
+
+theorem IExt.setGlobal (s : Storage) (n : Nat) (v : Val) : IExt s (s.setGlobal n v) :=
+  ⟨rfl, Nat.le_refl _, fun _ _ => rfl⟩
+
+theorem IExt.getInstVar {s s' : Storage} (h : IExt s s') (id m : Nat) (hid : id < s.nextId) :
+    s'.getInstVar id m = s.getInstVar id m := by
+  simp [Storage.getInstVar, h.old id hid]
+
+/-- The value `restart` keeps for a global: what the first loop stored. -/
+def retainedVal (s : Storage) (ms : List GlobalMeta) (n : Nat) : Option Val :=
+  if ms.any (fun m => m.name == n && retainOnWarm m.retain) then s.getGlobal n else none
+
+theorem aget_collectRetained (s : Storage) (ms : List GlobalMeta) :
+    ∀ (acc : List (Nat × Val)) (n : Nat),
+      aget (collectRetained s ms acc) n =
+        match retainedVal s ms n with
+        | some v => some v
+        | none => aget acc n := by
+  induction ms with
+  | nil => intro acc n; simp [collectRetained, retainedVal]
+  | cons m rest ih =>
+    intro acc n
+    simp only [collectRetained]
+    by_cases hr : retainOnWarm m.retain = true
+    · simp only [hr, if_true]
+      cases hg : s.getGlobal m.name with
+      | none =>
+        simp only
+        rw [ih]
+        by_cases hn : m.name = n
+        · subst hn
+          simp [retainedVal, hg]
+        · simp [retainedVal, hn, hr]
+      | some v =>
+        simp only
+        rw [ih]
+        by_cases hn : m.name = n
+        · subst hn
+          simp [retainedVal, hr, hg, aget_aset_same]
+          split <;> simp_all
+        · simp only [retainedVal, List.any_cons, hr, Bool.and_true, aget_aset_ne _ _ _ _ hn]
+          have : (m.name == n) = false := by simp [hn]
+          simp [this]
+    · have hr' : retainOnWarm m.retain = false := by simpa using hr
+      simp only [hr', Bool.false_eq_true, if_false]
+      rw [ih]
+      simp [retainedVal, hr']
+
+/-- Expected value of a declared global after the third loop. -/
+def GlobalPost (fbs : List FbDef) (warm : Bool) (retained : List (Nat × Val)) (s s' : Storage)
+    (m : GlobalMeta) : Prop :=
+  match (if warm && retainOnWarm m.retain then aget retained m.name else none) with
+  | some v => s'.getGlobal m.name = some v
+  | none =>
+    match m.init with
+    | .value v => s'.getGlobal m.name = some v
+    | .fb ty => ∃ j fb, s'.getGlobal m.name = some (.inst j) ∧ s.nextId ≤ j ∧ j < s'.nextId ∧
+        findFb fbs ty = some fb ∧
+        s'.getInstance j = some { tyName := fb.name, vars := membersMap [] fb.members }
+
+theorem resetGlobals_spec (fbs : List FbDef) (warm : Bool) (retained : List (Nat × Val))
+    (ms : List GlobalMeta) :
+    ∀ (s s' : Storage), resetGlobals fbs warm retained s ms = .ok s' → (ms.map (·.name)).Nodup →
+      IExt s s' ∧ (∀ n, n ∉ ms.map (·.name) → s'.getGlobal n = s.getGlobal n) ∧
+      ∀ m, m ∈ ms → GlobalPost fbs warm retained s s' m := by
+  induction ms with
+  | nil =>
+    intro s s' h _
+    simp only [resetGlobals] at h
+    injection h with h; subst h
+    exact ⟨IExt.refl _, fun _ _ => rfl, fun _ hm => by cases hm⟩
+  | cons m0 rest ih =>
+    intro s s' h hnd
+    simp only [List.map_cons, List.nodup_cons] at hnd
+    simp only [resetGlobals] at h
+    -- one step from `s` to `s1` (setting `m0.name`), then the tail
+    have key : ∀ (s1 : Storage), IExt s s1 → s1.getGlobal m0.name = s1.getGlobal m0.name →
+        (∀ n, n ≠ m0.name → s1.getGlobal n = s.getGlobal n) →
+        resetGlobals fbs warm retained s1 rest = .ok s' →
+        IExt s s' ∧ (∀ n, n ∉ (m0 :: rest).map (·.name) → s'.getGlobal n = s.getGlobal n) ∧
+        s'.getGlobal m0.name = s1.getGlobal m0.name ∧
+        (∀ m, m ∈ rest → GlobalPost fbs warm retained s1 s' m) := by
+      intro s1 hext _ hother htail
+      obtain ⟨h1, h2, h3⟩ := ih s1 s' htail hnd.2
+      refine ⟨hext.trans h1, ?_, h2 _ hnd.1, h3⟩
+      intro n hn
+      simp only [List.map_cons, List.mem_cons, not_or] at hn
+      rw [h2 n hn.2, hother n hn.1]
+    -- weaken a tail post-condition from `s1` to `s`
+    have weaken : ∀ (s1 : Storage), s.nextId ≤ s1.nextId → ∀ m,
+        GlobalPost fbs warm retained s1 s' m → GlobalPost fbs warm retained s s' m := by
+      intro s1 hle m hp
+      unfold GlobalPost at hp ⊢
+      split
+      · rename_i v hv; simp only [hv] at hp; exact hp
+      · rename_i hv
+        simp only [hv] at hp
+        cases hi : m.init with
+        | value v => simpa [hi] using hp
+        | fb ty =>
+          simp only [hi] at hp ⊢
+          obtain ⟨j, fb, a1, a2, a3, a4, a5⟩ := hp
+          exact ⟨j, fb, a1, by omega, a3, a4, a5⟩
+    cases hk : (if warm && retainOnWarm m0.retain then aget retained m0.name else none) with
+    | some v =>
+      rw [hk] at h
+      dsimp only at h
+      obtain ⟨k1, k2, k3, k4⟩ := key (s.setGlobal m0.name v) (IExt.setGlobal _ _ _) rfl
+        (fun n hn => getGlobal_setGlobal_ne _ _ _ _ (fun e => hn e.symm)) h
+      refine ⟨k1, k2, ?_⟩
+      intro m hm
+      rcases List.mem_cons.1 hm with rfl | hmem
+      · unfold GlobalPost; rw [hk]; dsimp only; rw [k3]; simp
+      · exact weaken _ (by simp) m (k4 m hmem)
+    | none =>
+      rw [hk] at h
+      dsimp only at h
+      cases hi : m0.init with
+      | value v =>
+        rw [hi] at h
+        dsimp only at h
+        obtain ⟨k1, k2, k3, k4⟩ := key (s.setGlobal m0.name v) (IExt.setGlobal _ _ _) rfl
+          (fun n hn => getGlobal_setGlobal_ne _ _ _ _ (fun e => hn e.symm)) h
+        refine ⟨k1, k2, ?_⟩
+        intro m hm
+        rcases List.mem_cons.1 hm with rfl | hmem
+        · unfold GlobalPost; rw [hk]; dsimp only; rw [hi]; dsimp only; rw [k3]; simp
+        · exact weaken _ (by simp) m (k4 m hmem)
+      | fb ty =>
+        rw [hi] at h
+        dsimp only at h
+        cases hc : createFbInstance fbs s ty with
+        | error e => rw [hc] at h; cases h
+        | ok r =>
+          obtain ⟨s1, id⟩ := r
+          rw [hc] at h
+          dsimp only at h
+          obtain ⟨fb, hfind, hid, hnext, hext, hinst⟩ := createFbInstance_spec fbs s s1 ty id hc
+          obtain ⟨k1, k2, k3, k4⟩ := key (s1.setGlobal m0.name (.inst id))
+            (hext.toIExt.trans (IExt.setGlobal _ _ _)) rfl
+            (fun n hn => by
+              rw [getGlobal_setGlobal_ne _ _ _ _ (fun e => hn e.symm)]; exact hext.getGlobal n) h
+          refine ⟨k1, k2, ?_⟩
+          obtain ⟨t1, _, _⟩ := ih _ s' h hnd.2
+          intro m hm
+          rcases List.mem_cons.1 hm with rfl | hmem
+          · unfold GlobalPost; rw [hk]; dsimp only; rw [hi]; dsimp only
+            refine ⟨id, fb, by rw [k3]; simp, by omega, ?_, hfind, ?_⟩
+            · have := t1.next; simp at this; omega
+            · rw [t1.old id (by simp; omega)]; simpa using hinst
+          · exact weaken _ (by simp; omega) m (k4 m hmem)
+
+/-- What the fourth loop establishes for one program: a NEW live instance whose variables have
+their declared initial values (FB-typed variables: new FB instances with initial members). -/
+def ProgPost (fbs : List FbDef) (s s' : Storage) (p : ProgDef) (id : Nat) : Prop :=
+  s'.getGlobal p.name = some (.inst id) ∧ s.nextId ≤ id ∧ id < s'.nextId ∧
+  (s'.getInstance id).isSome ∧
+  ∀ d, d ∈ p.vars →
+    match d.init with
+    | .plain v => s'.getInstVar id d.name = some v
+    | .ext => True
+    | .fb ty => ∃ j fb, s'.getInstVar id d.name = some (.inst j) ∧ s.nextId ≤ j ∧ j < s'.nextId ∧
+        findFb fbs ty = some fb ∧
+        s'.getInstance j = some { tyName := fb.name, vars := membersMap [] fb.members }
+
+theorem ProgPost.weaken {fbs : List FbDef} {s0 s s' : Storage} {p : ProgDef} {id : Nat}
+    (h : ProgPost fbs s s' p id) (hle : s0.nextId ≤ s.nextId) : ProgPost fbs s0 s' p id := by
+  obtain ⟨a1, a2, a3, a4, a5⟩ := h
+  refine ⟨a1, by omega, a3, a4, ?_⟩
+  intro d hd
+  have := a5 d hd
+  cases hi : d.init with
+  | plain v => simpa [hi] using this
+  | ext => trivial
+  | fb ty =>
+    simp only [hi] at this ⊢
+    obtain ⟨j, fb, b1, b2, b3, b4, b5⟩ := this
+    exact ⟨j, fb, b1, by omega, b3, b4, b5⟩
+
+theorem recreatePrograms_spec (fbs : List FbDef) (ps : List ProgDef) :
+    ∀ (s s' : Storage), recreatePrograms fbs s ps = .ok s' → (ps.map (·.name)).Nodup →
+      (∀ p, p ∈ ps → (p.vars.map (·.name)).Nodup) →
+      IExt s s' ∧ (∀ n, n ∉ ps.map (·.name) → s'.getGlobal n = s.getGlobal n) ∧
+      (∀ p, p ∈ ps → ∃ id, ProgPost fbs s s' p id) := by
+  induction ps with
+  | nil =>
+    intro s s' h _ _
+    simp only [recreatePrograms] at h
+    injection h with h; subst h
+    exact ⟨IExt.refl _, fun _ _ => rfl, fun _ hp => by cases hp⟩
+  | cons p0 rest ih =>
+    intro s s' h hnd hvars
+    simp only [List.map_cons, List.nodup_cons] at hnd
+    simp only [recreatePrograms] at h
+    cases hc : createProgramInstance fbs s p0 with
+    | error e => rw [hc] at h; cases h
+    | ok r =>
+      obtain ⟨s1, id0⟩ := r
+      rw [hc] at h
+      dsimp only at h
+      obtain ⟨hid, hlt, hext, hsome, hcont⟩ :=
+        createProgramInstance_spec fbs s s1 p0 id0 hc (hvars p0 (by simp))
+      obtain ⟨t1, t2, t3⟩ := ih _ s' h hnd.2 (fun p hp => hvars p (by simp [hp]))
+      have hnext : s.nextId ≤ (s1.setGlobal p0.name (.inst id0)).nextId := by simp; omega
+      refine ⟨(hext.toIExt.trans (IExt.setGlobal _ _ _)).trans t1, ?_, ?_⟩
+      · intro n hn
+        simp only [List.map_cons, List.mem_cons, not_or] at hn
+        rw [t2 n hn.2, getGlobal_setGlobal_ne _ _ _ _ (fun e => hn.1 e.symm)]
+        exact hext.getGlobal n
+      · intro p hp
+        rcases List.mem_cons.1 hp with rfl | hmem
+        · refine ⟨id0, ?_, by omega, ?_, ?_, ?_⟩
+          · rw [t2 _ hnd.1]; simp
+          · have := t1.next; simp at this; omega
+          · rw [t1.old id0 (by simp; omega)]; simpa using hsome
+          · intro d hd
+            have := hcont d hd
+            cases hi : d.init with
+            | plain v =>
+              simp only [hi] at this ⊢
+              rw [t1.getInstVar id0 d.name (by simp; omega)]; simpa using this
+            | ext => trivial
+            | fb ty =>
+              simp only [hi] at this ⊢
+              obtain ⟨j, fb, b1, b2, b3, b4, b5⟩ := this
+              refine ⟨j, fb, ?_, by omega, ?_, b4, ?_⟩
+              · rw [t1.getInstVar id0 d.name (by simp; omega)]; simpa using b1
+              · have := t1.next; simp at this; omega
+              · rw [t1.old j (by simpa using b3)]; simpa using b5
+        · obtain ⟨id, hpost⟩ := t3 p hmem
+          exact ⟨id, hpost.weaken hnext⟩
+
+/-- Two different programs never share the new instance. -/
+theorem recreatePrograms_distinct (fbs : List FbDef) (ps : List ProgDef) :
+    ∀ (s s' : Storage), recreatePrograms fbs s ps = .ok s' → (ps.map (·.name)).Nodup →
+      (∀ p, p ∈ ps → (p.vars.map (·.name)).Nodup) →
+      ∀ p q id, p ∈ ps → q ∈ ps → s'.getGlobal p.name = some (.inst id) →
+        s'.getGlobal q.name = some (.inst id) → p.name = q.name := by
+  induction ps with
+  | nil => intro s s' _ _ _ p q id hp; cases hp
+  | cons p0 rest ih =>
+    intro s s' h hnd hvars p q id hp hq hgp hgq
+    have hnd' := hnd
+    simp only [List.map_cons, List.nodup_cons] at hnd
+    simp only [recreatePrograms] at h
+    cases hc : createProgramInstance fbs s p0 with
+    | error e => rw [hc] at h; cases h
+    | ok r =>
+      obtain ⟨s1, id0⟩ := r
+      rw [hc] at h
+      dsimp only at h
+      obtain ⟨hid, hlt, hext, hsome, hcont⟩ :=
+        createProgramInstance_spec fbs s s1 p0 id0 hc (hvars p0 (by simp))
+      obtain ⟨t1, t2, t3⟩ := recreatePrograms_spec fbs rest _ s' h hnd.2
+        (fun p hp => hvars p (by simp [hp]))
+      have head : s'.getGlobal p0.name = some (.inst id0) := by rw [t2 _ hnd.1]; simp
+      -- ids of the tail are above `id0`
+      have tail_gt : ∀ r, r ∈ rest → ∀ i, s'.getGlobal r.name = some (.inst i) → id0 < i := by
+        intro r hr i hi
+        obtain ⟨i', hpost⟩ := t3 r hr
+        have : i' = i := by
+          have := hpost.1.symm.trans hi
+          injection this with this; injection this
+        subst this
+        have := hpost.2.1; simp at this; omega
+      rcases List.mem_cons.1 hp with rfl | hp'
+      · rcases List.mem_cons.1 hq with rfl | hq'
+        · rfl
+        · have e : id0 = id := by
+            have := head.symm.trans hgp
+            injection this with this; injection this
+          have := tail_gt q hq' id hgq
+          omega
+      · rcases List.mem_cons.1 hq with rfl | hq'
+        · have e : id0 = id := by
+            have := head.symm.trans hgq
+            injection this with this; injection this
+          have := tail_gt p hp' id hgp
+          omega
+        · exact ih _ s' h hnd.2 (fun p hp => hvars p (by simp [hp])) p q id hp' hq' hgp hgq
+
+/-! ### fifth loop -/
+
+theorem restoreProgVars_frame (l : List (Nat × Nat × Val)) :
+    ∀ (s : Storage), (restoreProgVars s l).globals = s.globals ∧
+      (restoreProgVars s l).nextId = s.nextId ∧ (restoreProgVars s l).frames = s.frames ∧
+      ∀ id, ((restoreProgVars s l).getInstance id).isSome = (s.getInstance id).isSome := by
+  induction l with
+  | nil => intro s; simp [restoreProgVars]
+  | cons t rest ih =>
+    intro s
+    obtain ⟨prog, var, v⟩ := t
+    simp only [restoreProgVars]
+    split
+    · rename_i id hg
+      obtain ⟨a, b, c, d⟩ := ih (s.setInstVar id var v)
+      refine ⟨by simpa using a, by simpa using b, by simpa using c, ?_⟩
+      intro j
+      rw [d j, isSome_getInstance_setInstVar]
+    · exact ih s
+
+open Classical in
+/-- Value of one variable of one instance after the fifth loop, when all the triples that
+address it carry the same value. -/
+theorem restoreProgVars_value (id n : Nat) (v : Val) (l : List (Nat × Nat × Val)) :
+    ∀ (s : Storage), (s.getInstance id).isSome →
+      (∀ t, t ∈ l → s.getGlobal t.1 = some (.inst id) → t.2.1 = n → t.2.2 = v) →
+      (restoreProgVars s l).getInstVar id n =
+        if (∃ t, t ∈ l ∧ s.getGlobal t.1 = some (.inst id) ∧ t.2.1 = n) then some v
+        else s.getInstVar id n := by
+  induction l with
+  | nil => intro s _ _; simp [restoreProgVars]
+  | cons t rest ih =>
+    intro s hsome hall
+    obtain ⟨prog, var, x⟩ := t
+    simp only [restoreProgVars]
+    split
+    · rename_i id' hg
+      have hsome' : ((s.setInstVar id' var x).getInstance id).isSome := by
+        rw [isSome_getInstance_setInstVar]; exact hsome
+      rw [ih (s.setInstVar id' var x) hsome' (fun t ht hgt hn => hall t (by simp [ht]) (by simpa using hgt) hn)]
+      simp only [getGlobal_setInstVar]
+      by_cases hmatch : id' = id ∧ var = n
+      · obtain ⟨rfl, rfl⟩ := hmatch
+        have hx : x = v := hall (prog, var, x) (by simp) hg rfl
+        subst hx
+        rw [getInstVar_setInstVar_same _ _ _ _ hsome]
+        have : ∃ t, t ∈ (prog, var, x) :: rest ∧ s.getGlobal t.1 = some (.inst id') ∧ t.2.1 = var :=
+          ⟨(prog, var, x), by simp, hg, rfl⟩
+        simp only [this, if_true]
+        by_cases hc : (∃ t, t ∈ rest ∧ s.getGlobal t.1 = some (.inst id') ∧ t.2.1 = var)
+        · simp only [hc, if_true]
+        · simp only [hc, if_false]
+      · have hne : id ≠ id' ∨ var ≠ n := by
+          by_cases h1 : id' = id
+          · right; intro e; exact hmatch ⟨h1, e⟩
+          · left; exact fun e => h1 e.symm
+        rw [getInstVar_setInstVar_other _ _ _ _ _ _ hne]
+        have : (∃ t, t ∈ (prog, var, x) :: rest ∧ s.getGlobal t.1 = some (.inst id) ∧ t.2.1 = n) ↔
+            (∃ t, t ∈ rest ∧ s.getGlobal t.1 = some (.inst id) ∧ t.2.1 = n) := by
+          constructor
+          · rintro ⟨t, ht, h1, h2⟩
+            rcases List.mem_cons.1 ht with rfl | ht'
+            · exfalso
+              apply hmatch
+              have := hg.symm.trans h1
+              injection this with this; injection this with this
+              exact ⟨this, h2⟩
+            · exact ⟨t, ht', h1, h2⟩
+          · rintro ⟨t, ht, h1, h2⟩
+            exact ⟨t, by simp [ht], h1, h2⟩
+        by_cases hc : (∃ t, t ∈ rest ∧ s.getGlobal t.1 = some (.inst id) ∧ t.2.1 = n)
+        · have h2 := this.2 hc
+          simp only [hc, h2, if_true]
+        · have h2 : ¬ (∃ t, t ∈ (prog, var, x) :: rest ∧ s.getGlobal t.1 = some (.inst id) ∧ t.2.1 = n) :=
+            fun h => hc (this.1 h)
+          simp only [hc, h2, if_false]
+    · rename_i hg
+      rw [ih s hsome (fun t ht hgt hn => hall t (by simp [ht]) hgt hn)]
+      have : (∃ t, t ∈ (prog, var, x) :: rest ∧ s.getGlobal t.1 = some (.inst id) ∧ t.2.1 = n) ↔
+          (∃ t, t ∈ rest ∧ s.getGlobal t.1 = some (.inst id) ∧ t.2.1 = n) := by
+        constructor
+        · rintro ⟨t, ht, h1, h2⟩
+          rcases List.mem_cons.1 ht with rfl | ht'
+          · exact absurd h1 (hg id)
+          · exact ⟨t, ht', h1, h2⟩
+        · rintro ⟨t, ht, h1, h2⟩
+          exact ⟨t, by simp [ht], h1, h2⟩
+      by_cases hc : (∃ t, t ∈ rest ∧ s.getGlobal t.1 = some (.inst id) ∧ t.2.1 = n)
+      · have h2 := this.2 hc
+        simp only [hc, h2, if_true]
+      · have h2 : ¬ (∃ t, t ∈ (prog, var, x) :: rest ∧ s.getGlobal t.1 = some (.inst id) ∧ t.2.1 = n) :=
+          fun h => hc (this.1 h)
+        simp only [hc, h2, if_false]
+
+/-! ### second loop: which triples are collected -/
+
+theorem mem_collectProgVars (s : Storage) (prog id : Nat) (vars : List VarDef) (t : Nat × Nat × Val) :
+    t ∈ collectProgVars s prog id vars ↔
+      t.1 = prog ∧ ∃ d, d ∈ vars ∧ d.name = t.2.1 ∧ retainOnWarm d.retain = true ∧
+        s.getInstVar id d.name = some t.2.2 ∧ t.2.2.retainable = true := by
+  induction vars with
+  | nil => simp [collectProgVars]
+  | cons d rest ih =>
+    simp only [collectProgVars]
+    by_cases hr : retainOnWarm d.retain = true
+    · simp only [hr, if_true]
+      cases hg : s.getInstVar id d.name with
+      | none =>
+        simp only
+        rw [ih]
+        constructor
+        · rintro ⟨h1, d', hd', h2⟩; exact ⟨h1, d', by simp [hd'], h2⟩
+        · rintro ⟨h1, d', hd', h2, h3, h4, h5⟩
+          rcases List.mem_cons.1 hd' with rfl | hm
+          · rw [hg] at h4; cases h4
+          · exact ⟨h1, d', hm, h2, h3, h4, h5⟩
+      | some v =>
+        simp only
+        by_cases hv : v.retainable = true
+        · simp only [hv, if_true, List.mem_cons]
+          rw [ih]
+          constructor
+          · rintro (rfl | ⟨h1, d', hd', h2⟩)
+            · exact ⟨rfl, d, by simp, rfl, hr, hg, hv⟩
+            · exact ⟨h1, d', by simp [hd'], h2⟩
+          · rintro ⟨h1, d', hd', h2, h3, h4, h5⟩
+            rcases hd' with rfl | hm
+            · left
+              rw [hg] at h4
+              injection h4 with h4
+              obtain ⟨a, b, c⟩ := t
+              simp only at h1 h2 h4
+              subst h1; subst h2; subst h4; rfl
+            · right; exact ⟨h1, d', hm, h2, h3, h4, h5⟩
+        · have hv' : v.retainable = false := by simpa using hv
+          simp only [hv', Bool.false_eq_true, if_false]
+          rw [ih]
+          constructor
+          · rintro ⟨h1, d', hd', h2⟩; exact ⟨h1, d', by simp [hd'], h2⟩
+          · rintro ⟨h1, d', hd', h2, h3, h4, h5⟩
+            rcases List.mem_cons.1 hd' with rfl | hm
+            · rw [hg] at h4; injection h4 with h4; rw [← h4, hv'] at h5; cases h5
+            · exact ⟨h1, d', hm, h2, h3, h4, h5⟩
+    · have hr' : retainOnWarm d.retain = false := by simpa using hr
+      simp only [hr', Bool.false_eq_true, if_false]
+      rw [ih]
+      constructor
+      · rintro ⟨h1, d', hd', h2⟩; exact ⟨h1, d', by simp [hd'], h2⟩
+      · rintro ⟨h1, d', hd', h2, h3, h4, h5⟩
+        rcases List.mem_cons.1 hd' with rfl | hm
+        · rw [hr'] at h3; cases h3
+        · exact ⟨h1, d', hm, h2, h3, h4, h5⟩
+
+theorem mem_collectRetainedProgVars (s : Storage) (ps : List ProgDef) (t : Nat × Nat × Val) :
+    t ∈ collectRetainedProgVars s ps ↔
+      ∃ p, p ∈ ps ∧ ∃ id, s.getGlobal p.name = some (.inst id) ∧
+        t ∈ collectProgVars s p.name id p.vars := by
+  induction ps with
+  | nil => simp [collectRetainedProgVars]
+  | cons p rest ih =>
+    simp only [collectRetainedProgVars]
+    split
+    · rename_i id hg
+      simp only [List.mem_append, ih]
+      constructor
+      · rintro (h | ⟨q, hq, h⟩)
+        · exact ⟨p, by simp, id, hg, h⟩
+        · exact ⟨q, by simp [hq], h⟩
+      · rintro ⟨q, hq, id', hg', h⟩
+        rcases List.mem_cons.1 hq with rfl | hm
+        · left
+          have := hg.symm.trans hg'
+          injection this with this; injection this with this
+          subst this; exact h
+        · right; exact ⟨q, hm, id', hg', h⟩
+    · rename_i hg
+      rw [ih]
+      constructor
+      · rintro ⟨q, hq, h⟩; exact ⟨q, by simp [hq], h⟩
+      · rintro ⟨q, hq, id', hg', h⟩
+        rcases List.mem_cons.1 hq with rfl | hm
+        · exact absurd hg' (hg id')
+        · exact ⟨q, hm, id', hg', h⟩
+
 end TrustVerif.C09
